@@ -30,7 +30,7 @@ META = {
     "ready": True,
     "category": "proof",
     "technique": "Lean 4 termination / native-depth theorems for the traversal algorithms (equality worklist, marker, cycle collector, drop handler; recursive hash / Display / drop glue) over arbitrary, possibly cyclic value graphs + traversal table and model configuration regenerated from the source + the real engine on deep / wide / shared / cyclic shapes, one child process per (shape, operation, size, stack)",
-    "level_text": "Theorems (lean/SteelVerif/C18/Props.lean) about the model M of the traversals, for ALL graphs (any depth, width, sharing, cycles; indices unrestricted): iterative_constant_depth - every operation that is a worklist uses one native frame (for the code as it is: marker, cycle collector, sending to a thread; eq_constant_depth_leaf_keys: equal? when map keys / set members are leaves); print_depth_bounded - Display stays below the depth limit 128 when no box / hash map / hash set is printed; eq_terminates_cyclic / mark_terminates_cyclic / print_terminates_cyclic - the worklists with a visited set end on every graph within |g|^2(d+1)+2 resp. |g|(d+1)+|roots|+1 rounds (measure: unvisited pairs / nodes) when every descending arm is checked / every container is marked; drop_terminates (every graph, cycles are leaked not looped, one reference per round), drop_frees_all_acyclic; recursive_depth_linear / no_constant_bound_hash (D7: Hash for SteelVal uses n+1 native frames on a chain of n containers) with recursive_depth_linear_partial (height <= available frames => hashed), hash_chain_overflows, hash_cycle_overflows, drop_depth_linear, print_depth_linear_boxes, eq_key_depth_linear. The full termination statements are FALSE for the code as it is (configuration Cfg.current, whose flags are regenerated from the source and checked by cfg_current_is_scanned): the partial statements hold under decidable guards (eq_terminates_cyclic_partial, mark_terminates_cyclic_partial, print_terminates_cyclic_partial) and the negations are proved from families of graphs: not_eq_terminates_cyclic (two rings of boxes of any length), not_mark_terminates_cyclic and not_print_terminates_cyclic (ring of strong boxes), mark_not_polynomial (doubling dag: 2^(n+1)-1 rounds), print_box_ring_unbounded. Table obligations by decide over the regenerated GenTraversals.lean: all_ops_classified, no_unbounded_recursion_partial (no native recursion outside the listed classes), known_recursive_present, worklists_do_not_recurse, scanned_kind_sets. What is NOT a theorem: that the Rust code is the model - that is the scan plus the run of the real engine: every shape x operation x size x stack in its own child process (8 MiB main thread, 2 MiB thread, wall-clock bound), verdict = survival + termination + result lines and printed text equal to what the driver computes from S on the same graph.",
+    "level_text": "Theorems (lean/SteelVerif/C18/Props.lean) about the model M of the traversals, for ALL graphs (any depth, width, sharing, cycles; indices unrestricted): iterative_constant_depth - every operation that is a worklist uses one native frame (for the code as it is: marker, cycle collector, sending to a thread - for these three the bound holds by construction of the model, worklist_depth_by_construction; the evidence that the code's visit_* methods do not recurse is the regenerated table, worklists_do_not_recurse; eq_constant_depth_leaf_keys: equal? when map keys / set members are leaves); print_depth_bounded - Display stays below the depth limit 128 when no box / hash map / hash set is printed; eq_terminates_cyclic / mark_terminates_cyclic / print_terminates_cyclic - the worklists with a visited set end on every graph within |g|^2(d+1)+2 resp. |g|(d+1)+|roots|+1 rounds (measure: unvisited pairs / nodes) when every descending arm is checked / every container is marked; drop_terminates (every graph, cycles are leaked not looped, one reference per round), drop_frees_all_acyclic; recursive_depth_linear / no_constant_bound_hash (D7: Hash for SteelVal uses n+1 native frames on a chain of n containers) with recursive_depth_linear_partial (height <= available frames => hashed), hash_chain_overflows, hash_cycle_overflows, drop_depth_linear, print_depth_linear_boxes, eq_key_depth_linear. The full termination statements are FALSE for the code as it is (configuration Cfg.current, whose flags are regenerated from the source and checked by cfg_current_is_scanned): the partial statements hold under decidable guards (eq_terminates_cyclic_partial, mark_terminates_cyclic_partial, print_terminates_cyclic_partial) and the negations are proved from families of graphs: not_eq_terminates_cyclic (two rings of boxes of any length), not_mark_terminates_cyclic and not_print_terminates_cyclic (ring of strong boxes), mark_not_polynomial (doubling dag: 2^(n+1)-1 rounds), print_box_ring_unbounded. Table obligations by decide over the regenerated GenTraversals.lean: all_ops_classified, no_unbounded_recursion_partial (no native recursion outside the listed classes), known_recursive_present, worklists_do_not_recurse, scanned_kind_sets. What is NOT a theorem: that the Rust code is the model - that is the scan plus the run of the real engine: every shape x operation x size x stack in its own child process (8 MiB main thread, 2 MiB thread, wall-clock bound), verdict = survival + termination + result lines and printed text equal to what the driver computes from S on the same graph.",
     "level_note": "Trusted: Lean kernel (axioms propext, Classical.choice, Quot.sound), the harness / python comparison, translate/c18_traversals.py (regex / brace matching over impl Hash, format_with_cycles, RecursiveEqualityHandler::visit, the three visitors, drop_impls, channel_send, into_serializable_value). Modelled, not verified: native frame sizes (the model says whether depth grows with the value, the run says whether 8 / 2 MiB are exceeded at 10^3, 10^5, 10^6), wall-clock time (quadratic re-entrant printing shows as a timeout), the prelude's Scheme-level printer (runs on the VM stack), serialize-value (table only), custom types, transducers, continuations, syntax objects as value kinds (classified in the table, not exercised). Failing cases are attributed to an open finding class only if the model predicts that failure for that case through the flag the class stands for.",
 }
 
